@@ -1,17 +1,20 @@
 /-
-  Non-vacuity for C03: the model finds the projection on a concrete conflicting matrix over ℚ.
+  Non-vacuity for C03: the model finds the projection on a concrete conflicting matrix over ℚ, and the
+  projection differs from the plain preference vector (the rows conflict: ⟨j₁, j₂⟩ = -2 < 0).
 -/
 import TjdModel.Agg.Spec
 namespace Tjd.Props.C03Example
 open Tjd Tjd.Agg
 
-/-- two conflicting rows, s = 3/2 is NOT the singular value here (any positive s ≥ norm_eps is admitted
-    by the theorems); the returned weights satisfy the KKT system exactly -/
-example :
-    let J : Mat Rat := [[1, 0], [-1, 1]]
-    match dualprojWeights J (3/2) (1/10000) (1/10000) [1/2, 1/2] with
-    | some (w, _) => kktCheck (regNormGram J (3/2) (1/10000) (1/10000)) [1/2, 1/2] w = true ∧ w ≠ [1/2, 1/2]
-    | none => False := by
-  sorry
+theorem dualproj_eval :
+    dualprojWeights ([[1, 0], [-2, 1]] : Mat Rat) (3/2) (1/10000) (1/10000) [1/2, 1/2] =
+      some ([40000/40009, 1/2], 1602160081/7201620000) := by
+  decide +kernel
+
+/-- the returned weights satisfy the KKT system exactly and are not the preference vector -/
+theorem dualproj_example :
+    kktCheck (regNormGram ([[1, 0], [-2, 1]] : Mat Rat) (3/2) (1/10000) (1/10000)) [1/2, 1/2]
+      [40000/40009, 1/2] = true ∧ ([40000/40009, 1/2] : Vec Rat) ≠ [1/2, 1/2] := by
+  decide +kernel
 
 end Tjd.Props.C03Example
